@@ -754,7 +754,7 @@ impl Transformer {
 
         if self.context.real_svg {
             // We don't do any post-processing on 'real' SVG documents
-            return events.write_to(writer);
+            return events.write_verbatim(writer);
         }
 
         let mut has_svg_element = false;
